@@ -793,6 +793,10 @@ class Request:
             # the client actually sent.
             host_header = self.env['HTTP_HOST']
             host, port = parse_host(host_header)
+        except ValueError:
+            raise errors.HTTPInvalidHeader(
+                'The value must be formatted as host[:port].', 'Host'
+            )
         except KeyError:
             # PERF(kgriffs): According to PEP-3333, this header
             # will always be present.
@@ -986,7 +990,11 @@ class Request:
                 self._cached_access_route = []
                 for hop in self.forwarded or ():
                     if hop.src is not None:
-                        host, __ = parse_host(hop.src)
+                        try:
+                            host, __ = parse_host(hop.src)
+                        except ValueError:
+                            # NOTE: Malformed values are returned as-is.
+                            host = hop.src
                         self._cached_access_route.append(host)
             elif 'HTTP_X_FORWARDED_FOR' in self.env:
                 addresses = self.env['HTTP_X_FORWARDED_FOR'].split(',')
@@ -1037,6 +1045,10 @@ class Request:
 
             default_port = 80 if self.env['wsgi.url_scheme'] == 'http' else 443
             _, port = parse_host(host_header, default_port=default_port)
+        except ValueError:
+            raise errors.HTTPInvalidHeader(
+                'The value must be formatted as host[:port].', 'Host'
+            )
         except KeyError:
             # NOTE(kgriffs): Normalize to an int, since that is the type
             # returned by parse_host().
